@@ -55,8 +55,8 @@ CHECKS = {
             'Exploration: after every call the accumulated bytes must decode without error, has_pending_state() must equal the state implied by the emitted bytes, the final ISO-2022-JP stream must end in ASCII, and decoding the whole output must give the input with NCRs and the Standard\'s fixed folds; every scalar of planes 0-2 (all planes in thorough) alone and embedded, bounded-exhaustive history core, seeded random histories; the one-shot Encoding::encode held to the same round trip for k long-reference characters + a mapped character + an ASCII tail, every k to 320 (1300).',
             'The folding set is typed in from the Standard; the decoder used is the crate\'s own (C01).',
             'DESIGN.md sec. 6 C12'),
-    'C13': ('differential testing against a model of the Standard\'s get-an-encoding on a frozen label table; exhaustive edit/case/padding families + seeded random strings',
-            'Exploration: 228 labels x all single-byte substitutions/insertions/deletions, all case masks up to 12 bytes, all paddings up to 2x2 bytes from a 9-byte set, inner whitespace, over-long strings, names, every string of up to 4-5 label characters, every 2-3 token sequence over the labels\' vocabulary, ~1900 charset names of other registries, the label between every pair of ~50 delimiters, runs around powers of two, two simultaneous substitutions, random strings; arguments of 8 bytes and more also as a sub-slice 1..=15 bytes after a 16-byte boundary.',
+    'C13': ('differential testing against a model of the Standard\'s get-an-encoding on a frozen label table; exhaustive edit/case/padding families, exhaustive enumeration of all short byte strings (every 1-3 byte string, every 4-byte string over 09..7E, every 5-byte printable-ASCII string) + seeded random strings',
+            'Exploration: 228 labels x all single-byte substitutions/insertions/deletions, all case masks up to 12 bytes, all paddings up to 2x2 bytes from a 9-byte set, inner whitespace, over-long strings, names, every string of up to 4-5 label characters, every string of up to 3 bytes over all 256 values, every 4-byte string over 09..=7E (thorough: all 256 values) and every 5-byte string of printable ASCII (7.3x10^9; thorough 20..=7E), every 2-3 token sequence over the labels\' vocabulary, ~1900 charset names of other registries, the label between every pair of ~50 delimiters, runs around powers of two, two simultaneous substitutions, random strings; arguments of 8 bytes and more also as a sub-slice 1..=15 bytes after a 16-byte boundary.',
             'Trusts data/labels.txt.',
             'DESIGN.md sec. 6 C13'),
     'C14': ('differential testing against std::str::from_utf8 / naive scans over planted-defect families at every length, position and alignment, with the scalar path forced through the hook; ' + PBT,
